@@ -152,8 +152,17 @@ func c01LayoutCandidates(src []byte) []layoutCandidate {
 			// an own-line comment directly before a closing ")" that gofmt leaves unindented
 			cs = append(cs, layoutCandidate{"comment-before-rparen-unindented", i, j - 1})
 		case (strings.HasPrefix(next, "case ") || strings.HasPrefix(next, "default:")) && ni < ci:
-			// a comment at body indentation directly before the next case / default clause
-			cs = append(cs, layoutCandidate{"hanging-comment-before-case", i, j - 1})
+			// a comment at body indentation directly before the next case / default clause, where
+			// the clause body ends in a continuation line of a multi-line statement (indented
+			// deeper than the comment): dst's hanging-indent rule only covers clause bodies whose
+			// last line is at body indentation
+			p := i - 1
+			for p >= 0 && strings.TrimSpace(lines[p]) == "" {
+				p--
+			}
+			if p >= 0 && indentOf(lines[p]) > ci {
+				cs = append(cs, layoutCandidate{"hanging-comment-before-case-after-multiline-statement", i, j - 1})
+			}
 		case strings.HasPrefix(strings.TrimSpace(lines[i]), "//line ") && ci == 0 && ni > 0:
 			cs = append(cs, layoutCandidate{"line-directive-col1-in-indented-code", i, j - 1})
 		}
@@ -278,9 +287,28 @@ func runC01(c *fw.Ctx) {
 		checkFile("file:"+corpus.Rel(p), filepath.Base(p), src, "corpus")
 	}
 
+	// (a2) hand-written layout zoo
+	zoo := layoutZoo()
+	var znames []string
+	for k := range zoo {
+		znames = append(znames, k)
+	}
+	sort.Strings(znames)
+	for i, k := range znames {
+		if !c.Mine(i) {
+			continue
+		}
+		src := []byte(zoo[k])
+		if !corpus.Canonical(src) {
+			c.Count("zoo_entries_not_canonical", 1)
+			continue
+		}
+		checkFile("zoo:"+k, k+".go", src, "zoo")
+	}
+
 	// (c) comment mutations
 	mfiles := corpus.Sample(c.Rand("mut-files"), c.Pick(250, 3000))
-	kindsets := [][]string{{"block"}, {"eol", "own"}, {"blank", "own", "ownblk"}, {"block", "eol", "own", "blank", "ownblk", "mlblk"}}
+	kindsets := [][]string{{"block"}, {"eol", "own"}, {"blank", "own", "ownblk"}, {"block", "eol", "own", "blank", "ownblk", "mlblk"}, {"hang"}, {"hang", "blank", "eol"}}
 	for i, p := range mfiles {
 		if !c.Mine(i) {
 			continue
